@@ -5,7 +5,9 @@ REGISTRY = {
     "C01": "engines.scheme_sim",
     "C03": "engines.dimwise_checks",
     "C04": "engines.dimwise_checks",
+    "C05": "engines.dimwise_checks",
     "C06": "engines.dimwise_checks",
+    "C07": "engines.extendsplit_checks",
 }
 
 
